@@ -957,3 +957,17 @@ func (g *globalObject) Enabled(op Op, arg int) bool { return true }
 // the happens-before state cache distinguishes their relative order (the "processes running at
 // once" monitor depends on it).
 var ProcTable Object = &globalObject{"proctable"}
+
+// Deviations lists (site, permutation index) of every non-identity map-order choice of the execution.
+func (x *Exec) Deviations() [][2]int {
+	var out [][2]int
+	for i, c := range x.choices {
+		if c != 0 && x.points[i].kind == KindMap {
+			out = append(out, [2]int{x.points[i].site, c})
+		}
+	}
+	return out
+}
+
+// Preemptions counts the costly scheduling choices of the execution.
+func (x *Exec) Preemptions() int { return x.costP }
